@@ -531,11 +531,11 @@ def enumerate_cases(tier, seed, notes):
             elif big:
                 singles = rng.sample(pool, 40) + dups + [random_junk(rng) for _ in range(10)]
             else:
-                singles = list(pool) + dups + [random_junk(rng) for _ in range(150 if gen else 80)]
+                singles = list(pool) + dups + [random_junk(rng) for _ in range(80 if gen else 40)]
             for j in singles:
                 cases.append({"base": bid, "ins": [[si, site, j]], "mcase": "upper" if rng.random() < 0.75 else "preserve"})
             # counts 2 and 3, contiguous at this site
-            nmulti = (4 if gen else 2) if quick else (6 if big else (150 if gen else 75))
+            nmulti = (4 if gen else 2) if quick else (6 if big else (100 if gen else 50))
             for _ in range(nmulti):
                 cnt = rng.choice((2, 3))
                 js = []
